@@ -413,6 +413,8 @@ CHECKS = {
                 assumptions=['scripted informer map and stub informers replace client-go informers; the Cache, its locking, reference bookkeeping and cache source are the real code',
                              'concurrent callers: only data races (go -race is not used in the quick tier) and the quiescent end state are checked, intra-lock interleavings are reached by chance'],
                 mc=lambda tier: [dict(name='dyncache', kind='plain', module='MC_DynCache', cfg='MC_DynCache_intended.cfg'),
+                                 # unbounded in the number of operations: Apalache proves the property as an inductive invariant
+                                 dict(name='dyncache-inductive', kind='apalache', module='DynCacheTyped'),
                                  # negative controls: the two defects found (and fixed) in /repo, at the design level
                                  dict(name='dyncache-asfound', kind='plain', module='MC_DynCache', cfg='MC_DynCache_asfound.cfg',
                                       expect_violation='Inv_C12_InformerIffOwned'),
